@@ -7,7 +7,7 @@ Local Open Scope Z_scope.
 
 Definition good_cfg : evcfg := {|
   c_pos := Tail; c_arms := true; c_clears := true; c_order := Forward; c_catch := true;
-  c_fire_req_empty := true; c_marks := true; c_guard := FlushWhenIdle |}.
+  c_fire := FireWhileEmpty; c_marks := true; c_guard := FlushWhenIdle |}.
 
 (* THE TIE: the facts read from the source are the ones the proofs below rely on.  An edit of
    eventual.py that changes one of them changes gen/EventualGen.v and this lemma fails. *)
@@ -31,6 +31,53 @@ Definition wfq (st : qstate) : Prop :=
 Definition noflushfired (t : list ev) : Prop :=
   Forall (fun e => match e with FlushFired _ _ _ => False | _ => True end) t.
 
+(* ---- eventually(s) and the notification of a flush observer *)
+Lemma subs_map_sub l : subs (map (fun s => Sub (sid s)) l) = ids l.
+Proof. induction l as [|x l IH]; [reflexivity|]. cbn [map subs ids]. rewrite IH. reflexivity. Qed.
+Lemma rans_map_sub l : rans (map (fun s => Sub (sid s)) l) = [].
+Proof. induction l as [|x l IH]; [reflexivity|]. cbn [map rans]. exact IH. Qed.
+
+Lemma enq1_good st s :
+  ids (events (enq1 good_cfg st s)) = ids (events st) ++ [sid s] /\
+  in_turn (enq1 good_cfg st s) = in_turn st /\ flushers (enq1 good_cfg st s) = flushers st /\
+  (wfq st -> wfq (enq1 good_cfg st s)) /\ (sched st = true -> sched (enq1 good_cfg st s) = true).
+Proof.
+  unfold enq1. cbn [good_cfg c_pos c_arms events in_turn flushers timer sched].
+  split; [rewrite ids_app; reflexivity|]. split; [reflexivity|]. split; [reflexivity|]. split.
+  - intros [H1 H2]. unfold wfq; cbn [timer sched events]. rewrite H1, andb_true_r.
+    split; [reflexivity|]. intros _. destruct (sched st); reflexivity.
+  - intros ->. reflexivity.
+Qed.
+
+Lemma enq_all_good cb : forall st,
+  ids (events (fold_left (enq1 good_cfg) cb st)) = ids (events st) ++ ids cb /\
+  in_turn (fold_left (enq1 good_cfg) cb st) = in_turn st /\
+  flushers (fold_left (enq1 good_cfg) cb st) = flushers st /\
+  (wfq st -> wfq (fold_left (enq1 good_cfg) cb st)) /\
+  (sched st = true -> sched (fold_left (enq1 good_cfg) cb st) = true).
+Proof.
+  induction cb as [|s cb IH]; intros st; cbn [fold_left ids map].
+  - rewrite app_nil_r. split; [reflexivity|]. split; [reflexivity|]. split; [reflexivity|]. split; auto.
+  - destruct (enq1_good st s) as (A1 & A2 & A3 & A4 & A5).
+    destruct (IH (enq1 good_cfg st s)) as (B1 & B2 & B3 & B4 & B5).
+    rewrite B1, A1, B2, A2, B3, A3, <- app_assoc. cbn [app ids map].
+    split; [reflexivity|]. split; [reflexivity|]. split; [reflexivity|]. split; auto.
+Qed.
+
+Lemma notify_good ctx st f cb st' t :
+  notify good_cfg ctx st f cb = (st', t) ->
+  rans t = [] /\ ids (events st') = ids (events st) ++ subs t /\ in_turn st' = in_turn st /\
+  flushers st' = flushers st /\ (wfq st -> wfq st') /\ (sched st = true -> sched st' = true) /\
+  (ctx = None -> events st = [] -> Forall flush_ok t).
+Proof.
+  unfold notify. intros H; injection H as <- <-.
+  destruct (enq_all_good cb st) as (B1 & B2 & B3 & B4 & B5).
+  cbn [rans subs]. rewrite rans_map_sub, subs_map_sub.
+  split; [reflexivity|]. split; [exact B1|]. split; [exact B2|]. split; [exact B3|]. split; [exact B4|].
+  split; [exact B5|]. intros -> He. rewrite He. constructor; [cbn; split; reflexivity|].
+  apply Forall_forall. intros e Hin. apply in_map_iff in Hin as (x & <- & _). exact I.
+Qed.
+
 (* ---- one action *)
 Lemma do_act_good ctx st a st' t :
   do_act good_cfg ctx st a = (st', t) ->
@@ -38,26 +85,22 @@ Lemma do_act_good ctx st a st' t :
   (wfq st -> wfq st') /\
   (in_turn st = true -> noflushfired t) /\
   (ctx = None -> Forall flush_ok t) /\
-  (forall f, In f (flushers st) -> In f (flushers st')).
+  (sched st = true -> sched st' = true).
 Proof.
-  destruct a as [s|fid]; cbn [do_act good_cfg c_pos c_arms c_guard].
-  - intros H; injection H as <- <-. cbn [events in_turn timer sched flushers rans subs].
-    split; [reflexivity|]. split; [rewrite ids_app; reflexivity|]. split; [reflexivity|].
-    split.
-    { intros [H1 H2]. unfold wfq; cbn [timer sched events]. rewrite H1, andb_true_r.
-      split; [reflexivity|]. intros _. destruct (sched st); reflexivity. }
-    split; [intros _; repeat constructor|]. split; [intros _; repeat constructor|]. auto.
-  - destruct (is_nil (events st) && negb (in_turn st)) eqn:E; intros H; injection H as <- <-.
+  destruct a as [s|fid cb]; cbn [do_act good_cfg c_guard].
+  - intros H; injection H as <- <-. destruct (enq1_good st s) as (A1 & A2 & A3 & A4 & A5).
+    cbn [rans subs]. split; [reflexivity|]. split; [exact A1|]. split; [exact A2|]. split; [exact A4|].
+    split; [intros _; repeat constructor|]. split; [intros _; repeat constructor|]. exact A5.
+  - destruct (is_nil (events st) && negb (in_turn st)) eqn:E.
     + apply andb_true_iff in E as [E1 E2]. apply negb_true_iff in E2.
-      cbn [rans subs]. rewrite app_nil_r. split; [reflexivity|]. split; [reflexivity|]. split; [reflexivity|].
-      split; [auto|]. split; [intros C; congruence|]. split; [|auto].
-      intros ->. constructor; [|constructor]. cbn [flush_ok]. split; [|reflexivity].
-      destruct (events st); [reflexivity|discriminate].
-    + cbn [events in_turn timer sched flushers rans subs]. rewrite app_nil_r.
+      intros H. apply notify_good in H as (A1 & A2 & A3 & A4 & A5 & A6 & A7).
+      split; [exact A1|]. split; [exact A2|]. split; [exact A3|]. split; [exact A5|].
+      split; [intros C; congruence|]. split; [|exact A6].
+      intros Hc. apply A7; [exact Hc|]. destruct (events st); [reflexivity|discriminate].
+    + intros H; injection H as <- <-. cbn [set_flushers events in_turn timer sched flushers rans subs]. rewrite app_nil_r.
       split; [reflexivity|]. split; [reflexivity|]. split; [reflexivity|].
       split; [intros [H1 H2]; split; assumption|].
-      split; [intros _; constructor|]. split; [intros _; constructor|].
-      intros f Hf. apply in_or_app. left. exact Hf.
+      split; [intros _; constructor|]. split; [intros _; constructor|]. auto.
 Qed.
 
 Lemma run_acts_good ctx l : forall st st' t,
@@ -111,15 +154,39 @@ Qed.
 Definition wft (st : qstate) : Prop :=
   wfq st /\ in_turn st = false /\ (flushers st <> [] -> sched st = true).
 
+Lemma fire_while_good fl : forall st st' t,
+  fire_while good_cfg fl st = (st', t) -> wfq st -> in_turn st = false ->
+  wft st' /\ Forall flush_ok t /\ rans t = [] /\ ids (events st') = ids (events st) ++ subs t.
+Proof.
+  induction fl as [|[f cb] rest IH]; intros st st' t; cbn [fire_while].
+  - intros H W Hi; injection H as <- <-. cbn [rans subs]. rewrite app_nil_r.
+    split; [|split; [constructor|split; reflexivity]].
+    split; [exact W|]. split; [exact Hi|]. intros C; exfalso; apply C; reflexivity.
+  - destruct (is_nil (events st)) eqn:En.
+    + destruct (notify good_cfg None st f cb) as [st1 t1] eqn:E1.
+      destruct (fire_while good_cfg rest st1) as [st2 t2] eqn:E2.
+      intros H W Hi; injection H as <- <-.
+      apply notify_good in E1 as (A1 & A2 & A3 & A4 & A5 & A6 & A7).
+      apply IH in E2 as (B1 & B2 & B3 & B4); [|auto|congruence].
+      split; [exact B1|]. split.
+      { apply Forall_app; split; [|exact B2]. apply A7; [reflexivity|]. destruct (events st); [reflexivity|discriminate]. }
+      rewrite rans_app, subs_app, A1, B3, B4, A2, app_assoc. split; reflexivity.
+    + intros H W Hi; injection H as <- <-. cbn [rans subs]. rewrite app_nil_r.
+      split; [|split; [constructor|split; reflexivity]].
+      destruct W as [W1 W2]. split; [split; assumption|]. split; [exact Hi|].
+      cbn [set_flushers sched events]. intros _. apply W2. intros C; rewrite C in En; discriminate.
+Qed.
+
 Lemma turn_good st st' t :
   turn good_cfg st = (st', t) -> wft st ->
   wft st' /\ Forall flush_ok t /\
   ids (events st) ++ subs t = rans t ++ ids (events st') /\
-  rans t = ids (events st).
+  firstn (List.length (events st)) (rans t) = ids (events st) /\
+  exists t1 t2, t = t1 ++ t2 /\ rans t1 = ids (events st) /\ rans t2 = [].
 Proof.
   unfold turn. intros H [[W1 W2] [Hi W3]].
   destruct (sched st) eqn:Es; cbn [negb] in H.
-  - cbn [good_cfg c_clears c_marks c_order c_fire_req_empty negb orb] in H.
+  - cbn [good_cfg c_clears c_marks c_order] in H.
     match type of H with context [run_batch good_cfg ?s0 ?b] =>
       destruct (run_batch good_cfg s0 b) as [[st1 t1] ok] eqn:E; set (st0 := s0) in * end.
     apply run_batch_good in E as (B0 & B1 & B2 & B3 & B4 & B5). subst ok.
@@ -127,24 +194,22 @@ Proof.
     specialize (B4 W0). specialize (B5 eq_refl). cbn [st0 events in_turn ids map app] in B2, B3.
     assert (Hnf : Forall flush_ok t1).
     { eapply Forall_impl; [|exact B5]. intros e; destruct e; cbn; tauto. }
-    destruct B4 as [C1 C2].
-    destruct (is_nil (events st1)) eqn:En; inversion H; subst; clear H; cbn [events in_turn timer sched flushers].
-    + destruct (events st1) as [|x l] eqn:Ee; [|discriminate].
-      split. { split; [split; [exact C1|exact C2]|]. split; [reflexivity|]. intros C; exfalso; apply C; reflexivity. }
-      split. { apply Forall_app; split; [exact Hnf|]. apply Forall_forall. intros e He.
-               apply in_map_iff in He as (f & <- & _). cbn. split; reflexivity. }
-      assert (Hs : forall l0, subs (map (fun f => FlushFired f 0%nat false) l0) = []) by (induction l0; auto).
-      assert (Hr : forall l0, rans (map (fun f => FlushFired f 0%nat false) l0) = []) by (induction l0; auto).
-      rewrite subs_app, rans_app. cbn [List.length]. rewrite Hs, Hr, !app_nil_r, B1.
-      cbn [ids map] in *. rewrite <- B2. rewrite app_nil_r. split; reflexivity.
-    + split. { split; [split; [exact C1|exact C2]|]. split; [reflexivity|]. intros _. apply C2.
-               intros C; rewrite C in En; discriminate. }
-      split; [exact Hnf|]. rewrite B1, B2. split; reflexivity.
-  - inversion H; subst; clear H.
-    assert (He : events st' = []).
-    { destruct (events st') eqn:E; [reflexivity|]. assert (false = true) by (apply W2; discriminate). discriminate. }
+    unfold fire in H. cbn [good_cfg c_fire flushers] in H.
+    match type of H with context [fire_while good_cfg ?fl ?s2] =>
+      destruct (fire_while good_cfg fl s2) as [st2 t2] eqn:E2 end.
+    injection H as <- <-.
+    apply fire_while_good in E2 as (C1 & C2 & C3 & C4); [|exact B4|reflexivity].
+    cbn [events] in C4.
+    split; [exact C1|]. split; [apply Forall_app; split; assumption|].
+    rewrite subs_app, rans_app, C3, app_nil_r, B1, C4, B2.
+    split; [rewrite app_assoc; reflexivity|]. split.
+    + unfold ids. rewrite <- (map_length sid (events st)). apply firstn_all.
+    + exists t1, t2. auto.
+  - injection H as <- <-.
+    assert (He : events st = []).
+    { destruct (events st) eqn:E; [reflexivity|]. assert (false = true) by (apply W2; discriminate). discriminate. }
     split; [unfold wft, wfq; rewrite Es; auto|]. split; [constructor|].
-    rewrite He. cbn. split; reflexivity.
+    rewrite He. cbn. split; [reflexivity|]. split; [reflexivity|]. exists [], []. auto.
 Qed.
 
 Lemma act_top_good st a st' t :
@@ -152,15 +217,17 @@ Lemma act_top_good st a st' t :
   wft st' /\ Forall flush_ok t /\ ids (events st) ++ subs t = rans t ++ ids (events st').
 Proof.
   intros H (W & Hi & W3). pose proof H as H0.
-  apply do_act_good in H as (A1 & A2 & A3 & A4 & A5 & A6 & _).
+  apply do_act_good in H as (A1 & A2 & A3 & A4 & A5 & A6 & A7).
   specialize (A4 W). specialize (A6 eq_refl). rewrite A1, A2. cbn [app].
   split; [|split; [exact A6|reflexivity]].
   split; [exact A4|]. split; [congruence|].
-  destruct a as [s|fid]; cbn [do_act good_cfg c_pos c_arms c_guard] in H0.
-  - inversion H0; subst; clear H0. cbn [flushers sched]. intros Hf. rewrite (W3 Hf). reflexivity.
+  destruct a as [s|fid cb]; cbn [do_act good_cfg c_guard] in H0.
+  - injection H0 as <- _. destruct (enq1_good st s) as (_ & _ & F & _ & _). rewrite F. intros Hf. apply A7. auto.
   - rewrite Hi in H0. cbn [negb] in H0. rewrite andb_true_r in H0.
-    destruct (is_nil (events st)) eqn:En; inversion H0; subst; clear H0; [exact W3|].
-    cbn [flushers sched]. intros _. destruct W as [_ W2]. apply W2. intros C; rewrite C in En; discriminate.
+    destruct (is_nil (events st)) eqn:En.
+    + apply notify_good in H0 as (_ & _ & _ & F & _ & _ & _). rewrite F. intros Hf. apply A7. auto.
+    + injection H0 as <- _. cbn [set_flushers flushers sched]. intros _. destruct W as [_ W2]. apply W2.
+      intros C; rewrite C in En; discriminate.
 Qed.
 
 Lemma step_good st o st' t :
@@ -214,15 +281,17 @@ Corollary ev_exactly_once : forall ops st t,
 Proof. intros ops st t H He. apply ev_fifo in H. rewrite He, app_nil_r in H. auto. Qed.
 
 (* one turn runs exactly the callables queued when it started, in order, whether or not some
-   of them raise; what they enqueue is left for a later turn *)
+   of them raise; what they (or the flush callbacks served at the end of the turn) enqueue is
+   left for a later turn *)
 Theorem ev_isolation : forall ops st t st' t',
   run src_cfg q0 ops = (st, t) -> turn src_cfg st = (st', t') ->
   rans t' = map sid (events st) /\ map sid (events st') = subs t'.
 Proof.
   rewrite src_is_good. intros ops st t st' t' H Ht.
   apply run_good in H as (W & _ & _); [|exact wft_q0].
-  apply turn_good in Ht as (_ & _ & A & B); [|exact W]. split; [exact B|].
-  rewrite B in A. apply app_inv_head in A. auto.
+  apply turn_good in Ht as (_ & _ & A & _ & (t1 & t2 & -> & B1 & B2)); [|exact W].
+  rewrite rans_app, B1, B2, app_nil_r in *. split; [reflexivity|].
+  apply app_inv_head in A. auto.
 Qed.
 
 (* work that is queued always has a reactor call pending, and so has a registered flush observer *)
@@ -244,7 +313,7 @@ Qed.
 (* D11, for the record: the guard `if not self._events` of the earlier code admits a notification
    while a later callable of the same batch has not run *)
 Definition d11_witness : list op :=
-  [OAct (AEnq (Sc 1 [AFlush 7] false)); OAct (AEnq (Sc 2 [] false)); OTurn].
+  [OAct (AEnq (Sc 1 [AFlush 7 []] false)); OAct (AEnq (Sc 2 [] false)); OTurn].
 
 Lemma ev_flush_old_guard_refuted :
   exists ops st t, run old_cfg q0 ops = (st, t) /\ In (FlushFired 7 1%nat true) t.
@@ -254,12 +323,26 @@ Example d11_witness_now :
   snd (run src_cfg q0 d11_witness) = [Sub 1; Sub 2; Ran 1; Ran 2; FlushFired 7 0%nat false].
 Proof. vm_compute. reflexivity. Qed.
 
+(* the second repair, for the record: with `if not self._events: fire every observer` a later observer is
+   notified although the callback of an earlier one has just enqueued work *)
+Definition d17_witness : list op :=
+  [OAct (AEnq (Sc 1 [] false)); OAct (AFlush 7 [Sc 2 [] false]); OAct (AFlush 8 []); OTurn].
+
+Lemma ev_flush_old_loop_refuted :
+  exists ops st t, run old2_cfg q0 ops = (st, t) /\ In (FlushFired 8 1%nat false) t.
+Proof. exists d17_witness. eexists. eexists. split; [vm_compute; reflexivity|]. cbn. tauto. Qed.
+
+Example d17_witness_now :
+  snd (run src_cfg q0 (d17_witness ++ [OTurn])) =
+  [Sub 1; Ran 1; FlushFired 7 0%nat false; Sub 2; Ran 2; FlushFired 8 0%nat false].
+Proof. vm_compute. reflexivity. Qed.
+
 (* non-vacuity: a program with re-entrant enqueueing, a raising callable and flushes *)
 Example ev_example :
-  let ops := [OAct (AEnq (Sc 1 [AEnq (Sc 3 [] false); AFlush 8] true)); OAct (AFlush 9); OAct (AEnq (Sc 2 [] false));
-              OTurn; OTurn; OAct (AFlush 10)] in
+  let ops := [OAct (AEnq (Sc 1 [AEnq (Sc 3 [] false); AFlush 8 [Sc 4 [] true]] true)); OAct (AFlush 9 []);
+              OAct (AEnq (Sc 2 [] false)); OTurn; OTurn; OTurn; OAct (AFlush 10 [])] in
   snd (run src_cfg q0 ops) =
-    [Sub 1; Sub 2; Ran 1; Sub 3; Raised 1; Ran 2; Ran 3; FlushFired 9 0%nat false; FlushFired 8 0%nat false;
-     FlushFired 10 0%nat false]
+    [Sub 1; Sub 2; Ran 1; Sub 3; Raised 1; Ran 2; Ran 3; FlushFired 9 0%nat false; FlushFired 8 0%nat false; Sub 4;
+     Ran 4; Raised 4; FlushFired 10 0%nat false]
   /\ events (fst (run src_cfg q0 ops)) = [].
 Proof. vm_compute. split; reflexivity. Qed.
